@@ -11,7 +11,7 @@
     check it; without it the same statements hold modulo 2^64, see [C06_total_wrap]). *)
 From Coq Require Import List NArith Permutation.
 From GV Require Import Base.Ints Gen.Math Gen.Step Model.VoteSummary Monitors.C06m Model.C06Run
-  Proofs.Thresholds Proofs.BytesOrder Proofs.VoteSummary Proofs.VoteThresholds.
+  Proofs.Thresholds Proofs.BytesOrder Proofs.VoteSummary Proofs.VoteDistribution Proofs.VoteThresholds.
 Import ListNotations.
 Local Open Scope N_scope.
 
@@ -133,3 +133,40 @@ Theorem C06_model_satisfies_monitor : forall vals pv pc,
   c06_minority_mon vals pv pc (model_obs vals pv pc) = true.
 Proof. intros. split; [exact (model_satisfies_monitor _ _ _)|exact (model_satisfies_minority_monitor _ _ _)]. Qed.
 Print Assumptions C06_model_satisfies_monitor.
+
+(** Mirror level (model of addPrevote/addPrecommit + view shift for ONE message on a fresh mirror,
+    run against the real Mirror by the check): a message whose signers hold, counted once each,
+    less than the minority threshold leaves the voting round at 0, for prevotes and precommits,
+    for the voting round and the next round, whatever targets it names. *)
+Theorem C06_minority_message_cannot_move_round : forall vals is_prevote round entries B,
+  1 <= sum_powers vals -> sum_powers vals < two64 ->
+  (forall e, In e entries -> mask_subset (snd e) B) ->
+  mask_power vals B < mnr (sum_powers vals) ->
+  NoDup (keys entries) ->
+  exists pv pc, mirror_predict vals is_prevote round entries = Some (0, pv, pc).
+Proof. exact minority_message_cannot_move_round. Qed.
+Print Assumptions C06_minority_message_cannot_move_round.
+
+Theorem C06_model_satisfies_mirror_monitors : forall vals is_prevote round entries r pv pc,
+  mirror_predict vals is_prevote round entries = Some (r, pv, pc) ->
+  c06_round_mon vals entries 1 r = true /\ c06_sum_mon vals pv pc (model_obs vals pv pc) = true.
+Proof. intros. split; [eapply model_satisfies_round_monitor; eassumption|apply model_satisfies_sum_monitor]. Qed.
+Print Assumptions C06_model_satisfies_mirror_monitors.
+
+(** tmi/votedistribution.go newVoteDistribution (used by checkMissingPHs and the initial load). *)
+Theorem C06_distribution_spec : forall vals entries,
+  sum_powers vals < two64 ->
+  let d := vote_distribution vals entries in
+  d_available d = sum_powers vals /\
+  d_present d = mask_power vals (union_mask entries) /\
+  (NoDup (keys entries) -> forall h m, In (h, m) entries -> map_get (d_block d) h = mask_power vals m) /\
+  (forall h, In h (keys (d_block d)) -> In h (keys entries)) /\
+  NoDup (keys (d_block d)).
+Proof. exact distribution_spec. Qed.
+Print Assumptions C06_distribution_spec.
+
+Theorem C06_model_satisfies_dist_monitor : forall vals entries,
+  let d := vote_distribution vals entries in
+  dist_mon vals entries (d_available d) (d_present d) (d_block d) = true.
+Proof. exact model_satisfies_dist_monitor. Qed.
+Print Assumptions C06_model_satisfies_dist_monitor.
